@@ -63,6 +63,11 @@ struct KeyPol { using ArgumentPassingMode = eventpp::ArgumentPassingExcludeEvent
 using Disp = eventpp::EventDispatcher<int, void (int), KeyPol>;
 struct MapPol { using ArgumentPassingMode = eventpp::ArgumentPassingExcludeEvent; template <typename K, typename V> using Map = std::map<K, V>; };
 using DispMap = eventpp::EventDispatcher<int, void (int), MapPol>;
+// the library's SpinLock as the mutex: its acquire / release orders are what makes the protected data race-free
+struct SpinPol { using Threading = eventpp::GeneralThreading<eventpp::SpinLock>; };
+using QueueSpin = eventpp::EventQueue<int, void (int, const Payload &), SpinPol>;
+struct SpinKeyPol { using ArgumentPassingMode = eventpp::ArgumentPassingExcludeEvent; using Threading = eventpp::GeneralThreading<eventpp::SpinLock>; };
+using DispSpin = eventpp::EventDispatcher<int, void (int), SpinKeyPol>;
 
 void deliver(const Payload & p) { if(p.serial >= 0 && p.serial < kMaxEvents) g_c.delivered[p.serial].fetch_add(1); }
 
@@ -116,8 +121,9 @@ template <typename D> void dispOp(D & d, const Op & op, std::vector<typename D::
 Grammar makeGrammar(const std::string & prop)
 {
 	Grammar g;
-	// params[0]: subject. C06: 0 EventQueue, 1 HeterEventQueue. C03: 2 dispatcher (unordered_map), 3 dispatcher (std::map)
-	g.params = { prop == "C03" ? ArgSpec(2, 3) : ArgSpec(0, 1), ArgSpec(4, 24) };
+	// params[0] selects the subject. C06: EventQueue, HeterEventQueue, EventQueue with SpinLock. C03: dispatcher with
+	// unordered_map, with std::map, with SpinLock
+	g.params = { ArgSpec(0, 2), ArgSpec(4, 24) };
 	g.maxDepth = 2;
 	g.maxTotalOps = 40;
 	Level top;
@@ -175,7 +181,9 @@ void runThreads(const std::vector<const std::vector<Op> *> & scripts, int reps, 
 Verdict runOnce(const Program & p, const std::string & prop)
 {
 	Verdict v;
-	const int subject = p.params.empty() ? 0 : p.params[0] & 3;
+	static const int c06[3] = { 0, 1, 4 }, c03[3] = { 2, 3, 5 };
+	const int which = p.params.empty() ? 0 : ((p.params[0] % 3) + 3) % 3;
+	const int subject = prop == "C03" ? c03[which] : c06[which];
 	const int reps = p.params.size() > 1 ? std::max(1, std::min(p.params[1], 40)) : 8;
 	std::vector<const std::vector<Op> *> scripts;
 	for(const Op & op : p.ops) if(op.kind == T_THREAD && (int)scripts.size() < kMaxThreads && ! op.body.empty()) scripts.push_back(&op.body);
@@ -202,6 +210,19 @@ Verdict runOnce(const Program & p, const std::string & prop)
 		while(q.process()) {}
 		if(! q.emptyQueue()) lost = "queue not empty after the final drain";
 	}
+	else if(subject == 4) {
+		QueueSpin q;
+		for(int k = 0; k < 2; ++k) q.appendListener(k, [](int, const Payload & pl) { deliver(pl); });
+		runThreads(scripts, reps, [&](int, const Op & op) { queueOp(q, op, std::integral_constant<int, 0>()); });
+		while(q.process()) {}
+		if(! q.emptyQueue()) lost = "queue not empty after the final drain";
+	}
+	else if(subject == 5) {
+		DispSpin d;
+		std::vector<std::vector<DispSpin::Handle> > mine(scripts.size());
+		std::vector<std::vector<int> > mineKey(scripts.size());
+		runThreads(scripts, reps, [&](int t, const Op & op) { dispOp(d, op, mine[(size_t)t], mineKey[(size_t)t]); });
+	}
 	else if(subject == 2) {
 		Disp d;
 		std::vector<std::vector<Disp::Handle> > mine(scripts.size());
@@ -214,7 +235,7 @@ Verdict runOnce(const Program & p, const std::string & prop)
 		std::vector<std::vector<int> > mineKey(scripts.size());
 		runThreads(scripts, reps, [&](int t, const Op & op) { dispOp(d, op, mine[(size_t)t], mineKey[(size_t)t]); });
 	}
-	if(subject <= 1 && lost.empty()) {
+	if((subject <= 1 || subject == 4) && lost.empty()) {
 		const int n = std::min(g_c.next.load(), kMaxEvents);
 		for(int i = 0; i < n; ++i) {
 			int c = g_c.delivered[i].load();
